@@ -7,9 +7,51 @@ import json
 import math
 
 
-def ser(v, sort=False):
+def ser(v, sort=False, _stack=None):
+    """JSON-able image of v.  Cyclic or absurdly deep values (a broken
+    decoder can return them) are cut with a marker instead of recursing
+    forever."""
+
     if v is None or isinstance(v, (bool, str)):
         return v
+
+    if isinstance(v, (list, tuple, dict)):
+        if _stack is None:
+            _stack = set()
+
+        if id(v) in _stack:
+            return {'cycle': True}
+
+        if len(_stack) > 300:
+            return {'too-deep': True}
+
+        _stack.add(id(v))
+
+        try:
+            return _ser_container(v, sort, _stack)
+        finally:
+            _stack.discard(id(v))
+
+    return _ser_scalar(v, sort)
+
+
+def _ser_container(v, sort, _stack):
+    if isinstance(v, tuple):
+        return {'t': [ser(x, sort, _stack) for x in v]}
+
+    if isinstance(v, list):
+        return [ser(x, sort, _stack) for x in v]
+
+    items = [[ser(k, sort, _stack), ser(x, sort, _stack)]
+             for k, x in v.items()]
+
+    if sort:
+        items.sort(key=lambda kv: json.dumps(kv[0], sort_keys=True))
+
+    return {'d': items}
+
+
+def _ser_scalar(v, sort):
 
     if isinstance(v, int):
         if -2 ** 53 < v < 2 ** 53:
@@ -28,20 +70,6 @@ def ser(v, sort=False):
 
     if isinstance(v, bytearray):
         return {'ba': v.hex()}
-
-    if isinstance(v, tuple):
-        return {'t': [ser(x, sort) for x in v]}
-
-    if isinstance(v, list):
-        return [ser(x, sort) for x in v]
-
-    if isinstance(v, dict):
-        items = [[ser(k, sort), ser(x, sort)] for k, x in v.items()]
-
-        if sort:
-            items.sort(key=lambda kv: json.dumps(kv[0], sort_keys=True))
-
-        return {'d': items}
 
     if isinstance(v, (datetime.datetime,
                       datetime.date,
